@@ -95,8 +95,10 @@ def select_block(fnode, block):
                     txts = [ast.unparse(s_) for s_ in stmts]
                     a_ = next((i_ for i_, t_ in enumerate(txts) if t_.startswith(block[0])), None)
                     b_ = None if a_ is None else next((i_ for i_ in range(a_, len(txts)) if txts[i_].startswith(block[1])), None)
-                    if len(block) > 2 and block[2] == "before" and b_ is not None:
+                    if len(block) > 2 and block[2] in ("before", "between") and b_ is not None:
                         b_ -= 1
+                    if len(block) > 2 and block[2] == "between" and a_ is not None:
+                        a_ += 1
                     sel = stmts[a_:b_ + 1] if b_ is not None and b_ >= a_ else []
                 else:
                     sel = [s_ for s_ in stmts if block(ast.unparse(s_))]
